@@ -262,6 +262,17 @@ class C13(PropCheck):
         return dict(kind='rvs', d=d, means=means, cov=cov, ws=ws, size=size, box=box,
                     outside=r.choice(['-inf', 'nan', '+inf']), seed=r.randrange(2 ** 31))
 
+    def gen_gm1(self):
+        """exactly one component in dimension d >= 2 (means of shape (1, d))."""
+        r = self.rng
+        d = r.choice([2, 2, 3])
+        a = np.array([[r.uniform(-1, 1) for _ in range(d)] for _ in range(d)])
+        self.bump('gm1 d=%d' % d)
+        return dict(kind='gm1', d=d, means=[[round(r.uniform(-2, 2), 2) for _ in range(d)]],
+                    pts=[[round(r.uniform(-2, 2), 2) for _ in range(d)] for _ in range(r.randint(1, 3))],
+                    cov_matrix=(a @ a.T + np.eye(d) * 0.5).tolist(), cov_scalar=r.choice([1.0, 0.5, 2.0]),
+                    size=r.choice([1, 3, 5]), seed=r.randrange(2 ** 31))
+
     def generate(self):
         f = 1 if self.tier == 'quick' else 12
         r = self.rng
@@ -279,6 +290,8 @@ class C13(PropCheck):
             yield self.gen_pdf(malformed=True)
         for _ in range(90 * f):
             yield self.gen_rvs()
+        for _ in range(6 * f):
+            yield self.gen_gm1()
 
     # ------------------------------------------------------------------------------------------
     # implementation drivers
@@ -400,6 +413,24 @@ class C13(PropCheck):
             out['same_without_constraint'] = bool(np.array_equal(np.asarray(o2), o))
         return out
 
+    def impl_gm1(self, case):
+        from elfi.methods.utils import GMDistribution
+        means = np.array(case['means'], dtype=float)
+        pts = np.array(case['pts'], dtype=float)
+        out = {}
+        for name, cov in (('matrix', np.array(case['cov_matrix'])), ('scalar', case['cov_scalar'])):
+            try:
+                p = GMDistribution.pdf(pts, means, cov)
+                out['pdf_' + name] = [float(v) for v in np.atleast_1d(p)] if np.size(p) == len(pts) else 'shape %s' % (np.shape(p),)
+            except Exception as e:
+                out['pdf_' + name] = 'raised %s: %s' % (type(e).__name__, str(e)[:80])
+            try:
+                o = GMDistribution.rvs(means, cov, size=case['size'], random_state=np.random.RandomState(case['seed']))
+                out['rvs_shape_' + name] = list(np.shape(o))
+            except Exception as e:
+                out['rvs_shape_' + name] = 'raised %s: %s' % (type(e).__name__, str(e)[:80])
+        return out
+
     # ------------------------------------------------------------------------------------------
     # python-side clauses
     # ------------------------------------------------------------------------------------------
@@ -446,6 +477,18 @@ class C13(PropCheck):
                 if out.get('pdf_single') != out['pdf'][0]:
                     if isinstance(out.get('pdf_single'), str) or not math.isclose(out['pdf_single'], out['pdf'][0], rel_tol=1e-12):
                         bad.append(('pdf_single_point', 'pdf(one point)=%r, first of batch=%r' % (out.get('pdf_single'), out['pdf'][0])))
+        elif k == 'gm1':
+            import scipy.stats as ss
+            m = np.array(case['means'][0])
+            for name, cov in (('matrix', np.array(case['cov_matrix'])), ('scalar', case['cov_scalar'])):
+                ref = [float(ss.multivariate_normal.pdf(x, mean=m, cov=cov)) for x in case['pts']]
+                got = out['pdf_' + name]
+                if isinstance(got, str) or not np.allclose(got, ref, rtol=1e-10, atol=0):
+                    bad.append(('gm_single_component', 'one component, d=%d, %s cov: pdf=%r, expected N(x; m, C)=%r'
+                                % (case['d'], name, got, ref)))
+                if out['rvs_shape_' + name] != [case['size'], case['d']]:
+                    bad.append(('gm_single_component', 'one component, d=%d, %s cov: rvs(size=%d) shape %r, expected %r'
+                                % (case['d'], name, case['size'], out['rvs_shape_' + name], [case['size'], case['d']])))
         elif k == 'rvs':
             if out['out'] is not None:
                 want = [case['size']] + ([] if case['d'] == 1 else [case['d']])
@@ -457,7 +500,7 @@ class C13(PropCheck):
 
     def nontrivial(self, case, out):
         k = case['kind']
-        if case.get('malformed'):
+        if case.get('malformed') or k == 'gm1':
             return None
         if k == 'quant':
             xs, ws = case['xs'], case['ws']
@@ -490,6 +533,9 @@ class C13(PropCheck):
         return json.dumps(case, sort_keys=True)
 
     def classify(self, case, out, clause):
+        # known finding: _normalize_params squeezes a (1, d) means array into d one-dimensional components
+        if case['kind'] == 'gm1' and len(case['means']) == 1 and case['d'] >= 2 and clause == 'gm_single_component':
+            return 'gm-single-component-multidim'
         return None
 
     # ------------------------------------------------------------------------------------------
